@@ -13,6 +13,7 @@ CONSTANTS
   WithErrors = FALSE
   WithIdle = FALSE
   WithSleep = FALSE
+  TimeoutTypes = {}
   KeepLog = TRUE
 INVARIANT TypeOK
 INVARIANT LockOK
